@@ -100,8 +100,20 @@ var BodyTypes = []*BodyType{
 	{Name: "P0x9212", New: plain(func() BodyHandler { return &model.P0x9212{} }), TwoWay: true, MaxLen: 20},
 }
 
+// LocBodyTypes: the location family (C07 only: its encoders write the 28-byte block; C03/C08 have their own ops).
+var LocBodyTypes = []*BodyType{
+	{Name: "T0x0200", New: plain(func() BodyHandler { return &model.T0x0200{} }), TwoWay: true, MaxLen: 28},
+	{Name: "T0x0704", New: plain(func() BodyHandler { return &model.T0x0704{} }), TwoWay: true, MaxLen: 31},
+	{Name: "T0x0801", New: plain(func() BodyHandler { return &model.T0x0801{} }), TwoWay: true, MaxLen: 36},
+}
+
 func BodyTypeByName(n string) *BodyType {
 	for _, t := range BodyTypes {
+		if t.Name == n {
+			return t
+		}
+	}
+	for _, t := range LocBodyTypes {
 		if t.Name == n {
 			return t
 		}
